@@ -101,14 +101,19 @@ Definition wf_rd (d : rd) : Prop :=
   | RD4 a b => a < 4294967296 /\ b < 65536
   end.
 
+(* a prefix of m bits travels in ceil(m / 8) octets: the remaining octets of the address
+   (of `width` octets) are zero in every decoded value *)
+Definition wf_prefix (width a m : N) : Prop :=
+  a < 256 ^ width /\ m <= 8 * width /\ a mod (256 ^ (width - (m + 7) / 8)) = 0.
+
 Definition wf_nlri (n : nlri) : Prop :=
   match n with
-  | NV4 a m => a < 2 ^ 32 /\ m <= 32
-  | NV6 a m => a < 2 ^ 128 /\ m <= 128
-  | NLab4 ls a m => a < 2 ^ 32 /\ m <= 32 /\ wf_labels ls m
-  | NLab6 ls a m => a < 2 ^ 128 /\ m <= 128 /\ wf_labels ls m
-  | NVpn4 ls d a m => a < 2 ^ 32 /\ m <= 32 /\ wf_rd d /\ wf_labels ls (64 + m)
-  | NVpn6 ls d a m => a < 2 ^ 128 /\ m <= 128 /\ wf_rd d /\ wf_labels ls (64 + m)
+  | NV4 a m => wf_prefix 4 a m
+  | NV6 a m => wf_prefix 16 a m
+  | NLab4 ls a m => wf_prefix 4 a m /\ wf_labels ls m
+  | NLab6 ls a m => wf_prefix 16 a m /\ wf_labels ls m
+  | NVpn4 ls d a m => wf_prefix 4 a m /\ wf_rd d /\ wf_labels ls (64 + m)
+  | NVpn6 ls d a m => wf_prefix 16 a m /\ wf_rd d /\ wf_labels ls (64 + m)
   end.
 
 (* protobuf ranges of the API NLRI messages *)
